@@ -1,15 +1,18 @@
 import RulioModel.C13
 import RulioProofs.C13
 import RulioProofs.C13NoPanic
+import RulioProofs.C13Repair
 
 /-! # C13 — no input can crash, hang or poison a location (property theorems only)
 
 The model (`RulioModel/C13.lean`) wraps the sequential State/Location model with the state's RW lock. Its functions are
 total by construction; what is proved here is (1) that the places where the Go source can panic are exactly the ones the
-model accounts for (tables regenerated from the source on every run), (2) that an operation on a serving location
-answers (never blocks) and leaves the location serving unless it ends in one of the enumerated panics, (3) that away
-from the enumerated sites nothing panics, (4) the negative theorems: concrete inputs that reach each enumerated site,
-and what they do to the lock. -/
+model accounts for (tables regenerated from the source on every run), (2) that no public operation can leave the state
+lock behind, whatever panics inside a State method (every lock region with code able to panic releases by `defer`), so a
+serving location answers every operation and keeps serving, (3) that away from the enumerated sites nothing panics,
+(4) what the repaired source does with the inputs of the five repaired defects (non-map `when` / `when.pattern`,
+scheduled rules carrying one, non-map `rule` in the linear state): errors and ordinary answers, (5) the negative
+theorems that remain. -/
 
 open C13
 
@@ -25,26 +28,42 @@ the ones the model assumes. Removing or adding a `defer`, or a lock call, breaks
 theorem locks_accounted : C13Gen.lockUses = lockTable := by rfl
 
 /-- every site the table calls `modelled` is one of the model's panic results, and every panic result of the model is
-a `modelled` row of the table or the nil dereference of ListRules (which is no assertion and has no row) -/
+a `modelled` row of the table, the nil dereference of ListRules (which is no assertion and has no row) or the
+hypothetical panic of the fault oracle (which stands for the places that are no row) -/
 theorem modelled_sites_are_the_models :
-    (∀ s : PanicSite, s ≠ .listRulesNil → ∃ row ∈ accounted, row.1.func = s.name ∧ row.2.isModelled = true) ∧
+    (∀ s : PanicSite, s ≠ .listRulesNil → s ≠ .unlisted → ∃ row ∈ accounted, row.1.func = s.name ∧ row.2.isModelled = true) ∧
     (∀ row ∈ accounted, row.2.isModelled = true → ∃ s : PanicSite, row.1.func = s.name) :=
   modelled_sites_ok
 
+/-- After the repair no row of core is `modelled` any more: the only input-reachable unchecked assertion left in the table
+is the `u.(string)` of `Service.ProcessRequest` (a library entry point, C13-service-uri-not-string). -/
+theorem only_service_row_is_modelled :
+    ∀ row ∈ accounted, row.2.isModelled = true → row.1.file = "service/service.go" ∧ row.1.func = "Service.ProcessRequest" := by
+  have key : (accounted.all (fun row => !row.2.isModelled || (row.1.file == "service/service.go" && row.1.func == "Service.ProcessRequest"))) = true := by
+    decide +kernel
+  intro row hmem hm
+  rw [List.all_eq_true] at key
+  have := key row hmem
+  simpa [hm] using this
+
 /-! ## Lock discipline read from the extracted table -/
 
-/-- In the linear state no method can leave its lock behind, whatever panics inside it (every lock region that contains
-code able to panic releases by `defer`); in the indexed state exactly `Add` (write lock) and `Search` (read lock) can. -/
-theorem leaks_enumerated :
-    (∀ m : Meth, leakOf .linear m = none) ∧
-    (∀ m : Meth, leakOf .indexed m = (match m with | .add => some .wdead | .search => some .rdead | _ => none)) := by
-  constructor <;> intro m <;> cases m <;> decide +kernel
+/-- `no_method_leaks_its_lock` (replaces `leaks_enumerated`, which listed `IndexedState.Add` and `.Search` as leaking).
+In BOTH states no method can leave its lock behind, whatever panics inside it: every lock region that contains code able
+to panic releases by `defer` (second clause), and each of the twelve Go functions does occur in the extracted table, so
+that clause is not vacuous (third clause). -/
+theorem no_method_leaks_its_lock :
+    (∀ (kind : Kind) (m : Meth), leakOf kind m = none) ∧
+    (∀ (kind : Kind) (m : Meth), panicUnderLock kind m = true → deferredIn C13Gen.lockUses (methName kind m) = true) ∧
+    (∀ (kind : Kind) (m : Meth), (C13Gen.lockUses.any (fun u => u.func == methName kind m)) = true) := by
+  refine ⟨?_, ?_, ?_⟩ <;> intro kind m <;> cases kind <;> cases m <;> decide +kernel
 
 /-! ## Totality with the location invariant -/
 
 /-- `total_and_serving`, lock part. For every public operation, every argument and every state: started on a
 serving location (nobody dead holds the state lock) the operation answers — it never blocks — and unless it ends in a
-panic the location is still serving afterwards. -/
+panic the location is still serving afterwards. (Holds under ANY lock discipline `k.locks`; see `no_operation_poisons`
+for the discipline of the source, where the proviso about panics disappears.) -/
 theorem total_and_serving (op : PubOp) (k : KLoc) (h : Serving k) :
     (run op k).2.isHang = false ∧ ((run op k).2.isPanic = false → Serving (run op k).1) :=
   run_serving op k h
@@ -61,33 +80,45 @@ theorem linear_always_serving (op : PubOp) (k : KLoc) (hk : k.loc.st.kind = .lin
     Serving (run op k).1 :=
   run_serving_linear op k hk hl h
 
+/-- `no_operation_poisons` (strengthens `total_and_serving` and `linear_always_serving`; false before the repair for the
+indexed state). Under the lock discipline of the source, for BOTH state kinds, every public operation with every
+argument, and EVERY fault oracle — i.e. whichever State method bodies panic, on whatever memory, leaving whatever
+memory behind: started on a serving location the operation answers (it never blocks) and the location is still serving
+afterwards, panic or not. No input, and no panic at a place the tables do not list, can poison a location. -/
+theorem no_operation_poisons (op : PubOp) (k : KLoc) (hl : k.locks = C13Gen.lockUses) (h : Serving k) :
+    (run op k).2.isHang = false ∧ Serving (run op k).1 ∧ (run op k).1.locks = C13Gen.lockUses :=
+  run_never_poisons op k hl h
+
+/-- ... and over whole histories, without any proviso: no operation of any history blocks, whatever panicked before it,
+and the location serves at the end. -/
+theorem no_history_poisons (ops : List PubOp) (k : KLoc) (hl : k.locks = C13Gen.lockUses) (h : Serving k) :
+    (∀ r ∈ (runAll ops k).2, r.2.isHang = false) ∧ Serving (runAll ops k).1 :=
+  runAll_never_poisons ops k hl h
+
 /-! ## Away from the enumerated sites -/
 
-/-- `no_panic_off_sites_partial`. FULL STATEMENT (not proved): "from a location none of whose stored facts can reach a
-listed site (every stored rule body has a map `when` whose `pattern`, if any, is a map; in the linear state every `rule`
-value is a map), no public operation whose own document has the same property panics, and the invariant is kept".
-PROVED: the indexed state's remove, fact search and rule search (with their cascades and expiry purges, for every fuel)
-never panic under that invariant and keep it. MISSING: the same for `add` (both states), `get`, the linear state, and
-the lift through queries and event processing; the differential run covers those. -/
-theorem no_panic_off_sites_partial (s : St) (now : Int) (hk : s.kind = .indexed) (hw : WOK s) :
-    (∀ id, (s.rem id now).2 ≠ .error "panic" ∧ WOK (s.rem id now).1) ∧
-    (∀ p, (searchK s p now).2 ≠ .error "panic" ∧ WOK (searchK s p now).1) ∧
-    (∀ ev, (findRulesK s ev now).2 ≠ .error "panic" ∧ WOK (findRulesK s ev now).1) :=
-  indexed_np s now hk hw
+/-- `no_panic_off_sites` (was `no_panic_off_sites_partial`: three methods of the indexed state, under an invariant on the
+stored rule bodies). Now for EVERY public operation (queries and event processing with their nested searches included),
+both state kinds, every argument and every store, with no hypothesis on the stored facts: on a serving location whose
+State method bodies do not panic (`FaultFree`: the model's reading of "away from the sites"; no input is known to make
+one panic on the repaired source, and the malformed stream of the check searches for one) the operation answers, the
+location stays such a location, and the only panic it can end in is the nil dereference of the non-inherited `ListRules`
+after a failed search (`listRulesNil`, outside every lock). -/
+theorem no_panic_off_sites (op : PubOp) (k : KLoc) (h : Serving k) (hf : FaultFree k) :
+    (run op k).2.isHang = false ∧ Serving (run op k).1 ∧ FaultFree (run op k).1 ∧
+    (∀ site, (run op k).2 = .panic site → site = .listRulesNil ∧ op.localList = true) :=
+  run_no_panic_off_sites op k h hf
 
 /-! ## Validated paths -/
 
-/-- `validated_paths_safe` — only partially true. FULL STATEMENT (false on the unchanged tree, see
-`addRule_null_pattern_poisons` below): "a rule that passes `RuleFromMap` (which `AddRule` runs first) reaches the state
-wrapped in a fact on which `GetRulePatterns` cannot panic". What holds: the same provided neither `when` nor
-`when.pattern` is JSON `null` — `RuleFromMap` reads `null` as "absent" (nil pointer / nil map) but the stored map still
-holds the key, and `GetRulePatterns` asserts a map. -/
-theorem validated_paths_safe_partial (rule : Obj) (now : Int) (rm : RuleM) (rule' : Obj) (expiring : Bool) (expires : Int)
-    (hv : ruleFromMap rule = .ok rm) (he : setExpires rule now = .ok (rule', expiring, expires))
-    (hn1 : rule.get? "when" ≠ some .null)
-    (hn2 : ∀ w, rule.get? "when" = some (.obj w) → Obj.get? w "pattern" ≠ some .null) :
-    whenOK (ruleWrapper rule' expiring expires) = true :=
-  wrapper_whenOK_partial rule now rm rule' expiring expires hv he hn1 hn2
+/-- `validated_paths_safe` (was `validated_paths_safe_partial`, which needed "neither `when` nor `when.pattern` is JSON
+null"). `AddRule` with ANY rule document — validated by `RuleFromMap` or refused by it, `null`s included — on a serving
+location whose State method bodies do not panic: an answer or an error, never a panic, never a hang, and the location
+keeps serving. -/
+theorem validated_paths_safe (c : Ctx) (id : String) (rule : Obj) (now : Int) (k : KLoc) (h : Serving k) (hf : FaultFree k) :
+    (run (.addRule c id rule now) k).2.isPanic = false ∧ (run (.addRule c id rule now) k).2.isHang = false ∧
+    Serving (run (.addRule c id rule now) k).1 ∧ FaultFree (run (.addRule c id rule now) k).1 :=
+  run_clean (.addRule c id rule now) k h hf rfl
 
 /-- what `RuleFromMap` does guarantee: `when` is absent, `null`, or a map whose `pattern` is absent, `null` or a map -/
 theorem ruleFromMap_checks_when (r : Obj) (rm : RuleM) (h : ruleFromMap r = .ok rm) :
@@ -96,86 +127,168 @@ theorem ruleFromMap_checks_when (r : Obj) (rm : RuleM) (h : ruleFromMap r = .ok 
       (Obj.get? w "pattern" = none ∨ Obj.get? w "pattern" = some .null ∨ ∃ p, Obj.get? w "pattern" = some (.obj p)) :=
   ruleFromMap_when r rm h
 
-/-! ## Negative theorems: the enumerated sites are reachable, with these consequences -/
+/-! ## The repaired paths: what the inputs of the five repaired defects do now -/
 
 /-- a fresh location over the indexed / the linear state -/
 def fresh (kind : Kind) : KLoc := { loc := { name := "a", st := { kind := kind } } }
 
-/-- N0 (found by attempting `validated_paths_safe`, confirmed on the real code, also through the HTTP service): the
-validated path is not safe. `AddRule {"when":{"pattern":null},"action":…}` passes `RuleFromMap`, then panics in
-GetRulePatterns inside `IndexedState.Add` and blocks the location; `{"when":null,"schedule":…}` is accepted and stored,
-and removing that rule later panics. -/
-theorem addRule_null_pattern_poisons :
-    let act : J := .obj [("code", .str "(1)")]
-    let r1 : Obj := [("when", .obj [("pattern", .null)]), ("action", act)]
-    let r2 : Obj := [("when", .null), ("schedule", .str "0 0 1 1 *"), ("action", act)]
-    (ruleFromMap r1).isOk = true ∧
-    (kAddRule {} "m" r1 100 (fresh .indexed)).2.cls = "panic" ∧ (kAddRule {} "m" r1 100 (fresh .indexed)).1.lock = .wdead ∧
-    (kGetFact {} "cnry" 100 (kAddRule {} "m" r1 100 (fresh .indexed)).1).2.isHang = true ∧
-    (kAddRule {} "m" r2 100 (fresh .indexed)).2.cls = "ok" ∧
-    (kRemRule {} "m" 100 (kAddRule {} "m" r2 100 (fresh .indexed)).1).2.cls = "panic" := by
+/-- The repaired `GetRulePatterns` against the shared sequential model (`RulioModel/Fact.lean`, which keeps an explicit
+panic for the unrepaired source): wherever that one answers, the repaired one answers the same; where that one panics
+(exactly the documents `badWhen`) the repaired one reports "no patterns". -/
+theorem repair_is_conservative (r : Obj) :
+    (∀ p, getRulePattern r = .ok p → getRulePatternR r = p) ∧
+    (∀ e, getRulePattern r = .error e → getRulePatternR r = none ∧ badWhen r = true) ∧
+    (badWhen r = true → noPattern r = true) :=
+  ⟨getRulePatternR_conservative r, getRulePatternR_of_panic r, badWhen_noPattern r⟩
+
+/-- `indexed_add_bad_when_rejected` (replaces N1 `indexed_add_bad_when_poisons` and N1b). For EVERY indexed location
+that serves (with or without the cron hooks of a System), every id, time and fact whose rule body has no `schedule` and a
+`when` (or `when.pattern`) that is not a map — the input that used to panic in GetRulePatterns under the write lock:
+the State call of AddFact/AddRule answers with an error, the location still serves, and facts, storage and term index are
+exactly as before (first clause). Concretely (second clause): `AddFact {"rule":{"when":5}}` on a fresh location is an
+error, nothing is stored, and the canary requests after it answer. -/
+theorem indexed_add_bad_when_rejected :
+    (∀ (k : KLoc) (id : String) (x : Obj) (now : Int) (r : Obj),
+      k.loc.st.kind = .indexed → Serving k → k.fault .add k.loc.st = none →
+      x.get? "rule" = some (.obj r) → Obj.has r "schedule" = false → badWhen r = true →
+      (∃ e, (kAdd id x now k).2 = .err e) ∧ Serving (kAdd id x now k).1 ∧
+      (kAdd id x now k).1.loc.st.facts = k.loc.st.facts ∧ (kAdd id x now k).1.loc.st.store = k.loc.st.store ∧
+      (kAdd id x now k).1.loc.st.ti = k.loc.st.ti) ∧
+    (let bad : Obj := [("rule", .obj [("when", .num 5)])]
+     let k1 := (kAddFact {} "m" bad 100 (fresh .indexed)).1
+     (kAddFact {} "m" bad 100 (fresh .indexed)).2.cls = "err" ∧
+     k1.lock = .free ∧ k1.loc.st.facts = [] ∧ k1.loc.st.store = [] ∧
+     (kGetFact {} "m" 100 k1).2.cls = "err" ∧
+     (kAddFact {} "cnry" [("cnryKey", .num 42)] 100 k1).2.cls = "ok" ∧
+     (kGetFact {} "cnry" 100 (kAddFact {} "cnry" [("cnryKey", .num 42)] 100 k1).1).2.cls = "ok" ∧
+     (kProcessEvent {} [("cnryEv", .num 7)] 100 k1).2.cls = "ok" ∧
+     (kRemFact {} "cnry" 100 (kAddFact {} "cnry" [("cnryKey", .num 42)] 100 k1).1).2.cls = "ok") :=
+  ⟨fun k id x now r hk hs hf hx hsch hb => kAdd_rejects k id x now r hk hs hf hx hsch (badWhen_noPattern r hb),
+   by decide +kernel⟩
+
+/-- N1b, repaired: the same through a `when.pattern` that is not a map, over a rule that is already stored under the id:
+the new document is refused, the stored rule stays, and the pattern index still dispatches the event `{"a":1}` to it. -/
+theorem indexed_add_bad_pattern_rejected :
+    let good : Obj := [("rule", .obj [("when", .obj [("pattern", .obj [("a", .num 1)])])])]
+    let bad : Obj := [("rule", .obj [("when", .obj [("pattern", .arr [])])])]
+    let k1 := (kAddFact {} "m" good 100 (fresh .indexed)).1
+    (kAddFact {} "m" good 100 (fresh .indexed)).2.cls = "ok" ∧
+    (kAddFact {} "m" bad 100 k1).2.cls = "err" ∧ (kAddFact {} "m" bad 100 k1).1.lock = .free ∧
+    (kAddFact {} "m" bad 100 k1).1.loc.st.facts.map (·.1) = ["m"] ∧
+    (kGetRule {} "m" 100 (kAddFact {} "m" bad 100 k1).1).2.cls = "ok" ∧
+    (match piSearch (kAddFact {} "m" bad 100 k1).1.loc.st.ri [("a", .num 1)] with | .ok ids => ids == ["m"] | _ => false) = true := by
   decide +kernel
 
-/-- N1 (confirmed on the real code): `AddFact {"rule":{"when":5}}` on an indexed location panics in GetRulePatterns
-while `IndexedState.Add` holds the write lock without `defer`; the location then blocks every request. -/
-theorem indexed_add_bad_when_poisons :
-    let k1 := (kAddFact {} "m" [("rule", .obj [("when", .num 5)])] 100 (fresh .indexed)).1
-    (kAddFact {} "m" [("rule", .obj [("when", .num 5)])] 100 (fresh .indexed)).2.cls = "panic" ∧
-    k1.lock = .wdead ∧
-    (kGetFact {} "cnry" 100 k1).2.isHang = true ∧
-    (kAddFact {} "cnry" [("cnryKey", .num 42)] 100 k1).2.isHang = true ∧
-    (kSearchFacts {} [("cnryKey", .str "?c")] false 100 k1).2.isHang = true ∧
-    (kProcessEvent {} [("cnryEv", .num 7)] 100 k1).2.isHang = true := by
-  decide +kernel
+/-- N0, repaired (`addRule_null_pattern_poisons` before). The validated path: for every rule that passes `RuleFromMap`
+and `setExpires`, has no `schedule` and no pattern (`"when":{"pattern":null}` is the one shape `RuleFromMap` lets
+through), the State call of `AddRule` on a serving indexed location is refused and changes nothing (first clause).
+Concretely: `AddRule {"when":{"pattern":null},"action":…}` passes `RuleFromMap` and is answered with the syntax error of
+`indexRule`, the location serves; `{"when":null,"schedule":…}` is accepted and stored, and removing that rule works. -/
+theorem addRule_null_pattern_rejected :
+    (∀ (k : KLoc) (id : String) (rule rule' : Obj) (now : Int) (rm : RuleM) (expiring : Bool) (expires : Int),
+      k.loc.st.kind = .indexed → Serving k → k.fault .add k.loc.st = none →
+      ruleFromMap rule = .ok rm → setExpires rule now = .ok (rule', expiring, expires) →
+      Obj.has rule' "schedule" = false → noPattern rule' = true →
+      (∃ e, (kAdd id (ruleWrapper rule' expiring expires) now k).2 = .err e) ∧
+      Serving (kAdd id (ruleWrapper rule' expiring expires) now k).1 ∧
+      (kAdd id (ruleWrapper rule' expiring expires) now k).1.loc.st.facts = k.loc.st.facts) ∧
+    (let act : J := .obj [("code", .str "(1)")]
+     let r1 : Obj := [("when", .obj [("pattern", .null)]), ("action", act)]
+     let r2 : Obj := [("when", .null), ("schedule", .str "0 0 1 1 *"), ("action", act)]
+     let k1 := (kAddRule {} "m" r1 100 (fresh .indexed)).1
+     let k2 := (kAddRule {} "m" r2 100 (fresh .indexed)).1
+     (ruleFromMap r1).isOk = true ∧
+     (match (kAddRule {} "m" r1 100 (fresh .indexed)).2 with | .err e => e == "syntax" | _ => false) = true ∧
+     k1.lock = .free ∧ k1.loc.st.facts = [] ∧
+     (kAddFact {} "cnry" [("cnryKey", .num 42)] 100 k1).2.cls = "ok" ∧
+     (kAddRule {} "m" r2 100 (fresh .indexed)).2.cls = "ok" ∧
+     (kGetRule {} "m" 100 k2).2.cls = "ok" ∧
+     (kRemRule {} "m" 100 k2).2.cls = "ok" ∧ (kRemRule {} "m" 100 k2).1.lock = .free ∧
+     (kGetRule {} "m" 100 (kRemRule {} "m" 100 k2).1).2.cls = "err") :=
+  ⟨fun k id rule rule' now rm expiring expires hk hs hf _ _ hsch hp =>
+     let h := kAdd_rejects k id (ruleWrapper rule' expiring expires) now rule' hk hs hf (wrapper_rule rule' expiring expires) hsch hp
+     ⟨h.1, h.2.1, h.2.2.1⟩,
+   by decide +kernel⟩
 
-/-- N1b: the same through a `when.pattern` that is not a map -/
-theorem indexed_add_bad_pattern_poisons :
-    (kAddFact {} "m" [("rule", .obj [("when", .obj [("pattern", .arr [])])])] 100 (fresh .indexed)).2.cls = "panic" ∧
-    (kAddFact {} "m" [("rule", .obj [("when", .obj [("pattern", .arr [])])])] 100 (fresh .indexed)).1.lock = .wdead := by
-  decide +kernel
+/-- N2, repaired (`scheduled_bad_when_panics_later` before). A scheduled rule body is stored without a look at its
+`when`. For every state, id and stored fact whose rule body has no pattern (or is no map), the rule part of `rem` —
+which also runs when the fact is overwritten or purged — has nothing to do and cannot fail (first clause). Concretely:
+the fact is stored, overwriting it works, removing it works and it is gone. -/
+theorem scheduled_bad_when_handled :
+    (∀ (s : St) (id : String) (fact : Obj), (∀ r, fact.get? "rule" = some (.obj r) → noPattern r = true) →
+      unindexOfR s id fact = .ok s) ∧
+    (let bad : Obj := [("rule", .obj [("schedule", .str "x"), ("when", .num 5)])]
+     let k1 := (kAddFact {} "m" bad 100 (fresh .indexed)).1
+     let k2 := (kAddFact {} "m" [("z", .num 1)] 100 k1).1
+     (kAddFact {} "m" bad 100 (fresh .indexed)).2.cls = "ok" ∧
+     (kAddFact {} "m" [("z", .num 1)] 100 k1).2.cls = "ok" ∧ k2.lock = .free ∧
+     (kGetFact {} "m" 100 k2).2.cls = "ok" ∧
+     (kRemFact {} "m" 100 k1).2.cls = "ok" ∧ (kRemFact {} "m" 100 k1).1.lock = .free ∧
+     (kRemFact {} "m" 100 k1).1.loc.st.facts = [] ∧
+     (kGetFact {} "m" 100 (kRemFact {} "m" 100 k1).1).2.cls = "err") :=
+  ⟨unindexOfR_noop, by decide +kernel⟩
 
-/-- N2 (confirmed): a scheduled rule body is stored without a look at its `when`; overwriting the fact later panics
-inside `Add` (location blocked), removing it panics inside `Rem` (deferred unlock: still serving, fact still there). -/
-theorem scheduled_bad_when_panics_later :
-    let k1 := (kAddFact {} "m" [("rule", .obj [("schedule", .str "x"), ("when", .num 5)])] 100 (fresh .indexed)).1
-    (kAddFact {} "m" [("rule", .obj [("schedule", .str "x"), ("when", .num 5)])] 100 (fresh .indexed)).2.cls = "ok" ∧
-    (kAddFact {} "m" [("z", .num 1)] 100 k1).2.cls = "panic" ∧ (kAddFact {} "m" [("z", .num 1)] 100 k1).1.lock = .wdead ∧
-    (kRemFact {} "m" 100 k1).2.cls = "panic" ∧ (kRemFact {} "m" 100 k1).1.lock = .free ∧
-    (kGetFact {} "m" 100 (kRemFact {} "m" 100 k1).1).2.cls = "ok" := by
-  decide +kernel
+/-- N3, repaired (`expiry_under_search_leaks_read_lock` before). When such a fact expires, the purge goes through: for
+every fuel, state and stored fact of that kind, `rem` is the deletion followed by the cascade, like for any other fact
+(first clause). Concretely: the search that finds the expired fact purges it and answers (no result), the lock is free,
+the fact, its storage entry and its index entries are gone, writers and readers keep being served; the same through
+`GetFact`. -/
+theorem expiry_of_bad_rule_purges :
+    (∀ (f : Nat) (s : St) (id : String) (now : Int) (fact : Obj), amGet s.facts id = some fact →
+      (∀ r, fact.get? "rule" = some (.obj r) → noPattern r = true) →
+      iremR (f + 1) s id now =
+        ((idepsR f (idelR s id fact) id now).1, (idepsR f (idelR s id fact) id now).2.map (fun _ => true))) ∧
+    (let bad : Obj := [("zz", .num 1), ("ttl", .num 1), ("rule", .obj [("schedule", .str "x"), ("when", .num 5)])]
+     let k1 := (kAddFact {} "m" bad 100 (fresh .indexed)).1
+     let k2 := (kSearchFacts {} [("zz", .str "?x")] false 102 k1).1
+     (kAddFact {} "m" bad 100 (fresh .indexed)).2.cls = "ok" ∧
+     (match (kSearchFacts {} [("zz", .str "?x")] false 102 k1).2 with | .ok found => found.isEmpty | _ => false) = true ∧
+     k2.lock = .free ∧ k2.loc.st.facts = [] ∧ k2.loc.st.store = [] ∧ k2.loc.st.ti = [] ∧
+     (kAddFact {} "cnry" [("cnryKey", .num 42)] 102 k2).2.cls = "ok" ∧
+     (kGetFact {} "cnry" 102 (kAddFact {} "cnry" [("cnryKey", .num 42)] 102 k2).1).2.cls = "ok" ∧
+     (kGetFact {} "m" 102 k1).2.cls = "err" ∧ (kGetFact {} "m" 102 k1).1.lock = .free ∧
+     (kGetFact {} "m" 102 k1).1.loc.st.facts = []) :=
+  ⟨iremR_noPattern, by decide +kernel⟩
 
-/-- N3 (confirmed): when such a fact expires, the search that purges it panics under the read lock of
-`IndexedState.Search` (no `defer`): readers still pass, the first writer blocks for ever, and from then on readers
-block too (sync.RWMutex gives a waiting writer priority). Through `GetFact` the same expiry panics after the lock was
-released: the location keeps serving. -/
-theorem expiry_under_search_leaks_read_lock :
-    let k1 := (kAddFact {} "m" [("zz", .num 1), ("ttl", .num 1), ("rule", .obj [("schedule", .str "x"), ("when", .num 5)])] 100 (fresh .indexed)).1
-    let k2 := (kSearchFacts {} [("zz", .str "?x")] false 102 k1).1
-    let k3 := (kAddFact {} "cnry" [("cnryKey", .num 42)] 102 k2).1
-    (kSearchFacts {} [("zz", .str "?x")] false 102 k1).2.cls = "panic" ∧ k2.lock = .rdead ∧
-    (kGetFact {} "nope" 102 k2).2.cls = "err" ∧
-    (kAddFact {} "cnry" [("cnryKey", .num 42)] 102 k2).2.isHang = true ∧
-    (kGetFact {} "nope" 102 k3).2.isHang = true ∧
-    (kGetFact {} "m" 102 k1).2.cls = "panic" ∧ (kGetFact {} "m" 102 k1).1.lock = .free := by
-  decide +kernel
-
-/-- N4 (confirmed): the linear state accepts `{"rule":5}`; afterwards the rule search of EVERY event at ANY time panics
-in `LinearState.doFindRules` (first clause, all events and times); the read lock is released by `defer`, so the location
-keeps serving: the canary event panics, the other canaries answer (second clause, concrete). -/
-theorem linear_bad_rule_panics_every_event :
+/-- N4, repaired (`linear_bad_rule_panics_every_event` before). The linear state still accepts `{"rule":5}`. The rule
+scan steps over a live fact whose `rule` value is not a map — no error, no candidate (first clause, every state, event,
+time and position in the scan); a store that holds only such facts answers EVERY event at ANY time with "no rules"
+(second clause); concretely the event, the other requests and `GetFact` of the odd fact all answer (third clause). -/
+theorem linear_bad_rule_ignored :
+    (∀ (ev : Obj) (now : Int) (f : Nat) (s : St) (id : String) (rest : List String) (acc : List (String × Obj)) (fact : Obj),
+      amGet s.facts id = some fact → ruleNotMap fact = true → checkExpiration fact now = .ok false →
+      lfindLoopR ev now (f + 1) s (id :: rest) acc = lfindLoopR ev now f s rest acc) ∧
     (∀ (ev : Obj) (now : Int),
-      (kAddFact {} "m" [("rule", .num 5)] 100 (fresh .linear)).1.loc.st.lFindRules ev now =
-        ((kAddFact {} "m" [("rule", .num 5)] 100 (fresh .linear)).1.loc.st, .error "panic")) ∧
+      lFindRulesR (kAddFact {} "m" [("rule", .num 5)] 100 (fresh .linear)).1.loc.st ev now =
+        ((kAddFact {} "m" [("rule", .num 5)] 100 (fresh .linear)).1.loc.st, .ok [])) ∧
     (let k1 := (kAddFact {} "m" [("rule", .num 5)] 100 (fresh .linear)).1
      (kAddFact {} "m" [("rule", .num 5)] 100 (fresh .linear)).2.cls = "ok" ∧
-     (kProcessEvent {} [("cnryEv", .num 7)] 100 k1).2.cls = "panic" ∧
+     (match (kProcessEvent {} [("cnryEv", .num 7)] 100 k1).2 with | .ok t => t.err.isNone && t.rules.isEmpty | _ => false) = true ∧
      (kProcessEvent {} [("cnryEv", .num 7)] 100 k1).1.lock = .free ∧
-     (kAddFact {} "cnry" [("cnryKey", .num 42)] 100 (kProcessEvent {} [("cnryEv", .num 7)] 100 k1).1).2.cls = "ok" ∧
-     (kGetFact {} "m" 100 (kProcessEvent {} [("cnryEv", .num 7)] 100 k1).1).2.cls = "ok") :=
-  ⟨fun ev now => lFindRules_bad _ (by decide +kernel) ev now, by decide +kernel⟩
+     (kSearchRules {} [("a", .num 1)] false 100 k1).2.cls = "ok" ∧
+     (kAddFact {} "cnry" [("cnryKey", .num 42)] 100 k1).2.cls = "ok" ∧
+     (kGetFact {} "m" 100 k1).2.cls = "ok" ∧
+     (kGetRule {} "m" 100 k1).2.cls = "err") :=
+  ⟨lfindLoopR_skip, fun ev now => lFindRulesR_onlyBad _ (by decide +kernel) ev now, by decide +kernel⟩
 
-/-- N5 (confirmed): `Service.ProcessRequest` called as a library function asserts the "uri" of the request map. -/
+/-! ## Negative theorems that remain -/
+
+/-- N5 (confirmed, C13-service-uri-not-string): `Service.ProcessRequest` called as a library function asserts the "uri" of
+the request map. -/
 theorem service_front_panics : (serviceFront [("uri", .num 5)]).site = some .serviceUriNotString := by
+  decide +kernel
+
+/-- N6 (confirmed, C13-unvalidated-rule-fact; no panic): `AddFact` stores a fact whose `rule` is not a valid rule — here
+`{"rule":{"when":{}}}`, indexed at the root of the pattern index — and from then on the rule search of EVERY event of the
+location fails as a whole with that rule's error (no action): the other rules of the location are not evaluated. The
+location keeps serving. -/
+theorem unvalidated_rule_fact_fails_events :
+    let k1 := (kAddFact {} "m" [("rule", .obj [("when", .obj [])])] 100 (fresh .indexed)).1
+    (kAddFact {} "m" [("rule", .obj [("when", .obj [])])] 100 (fresh .indexed)).2.cls = "ok" ∧
+    (match (kProcessEvent {} [("cnryEv", .num 7)] 100 k1).2 with | .ok t => t.err.isSome | _ => false) = true ∧
+    (kSearchRules {} [("cnryEv", .num 7)] false 100 k1).2.cls = "err" ∧
+    (kProcessEvent {} [("cnryEv", .num 7)] 100 k1).1.lock = .free ∧
+    (kGetFact {} "m" 100 k1).2.cls = "ok" := by
   decide +kernel
 
 /-- The HTTP front end (after repository commit a93a288, which repaired the three panics found there: empty POST body,
@@ -200,11 +313,27 @@ example :
     (runAll ops (fresh .indexed)).1.lock = .free := by
   decide +kernel
 
-/-- the invariant of `no_panic_off_sites_partial` holds of a state that stores an ordinary rule -/
-example : WOK { kind := .indexed, facts := [("r", [("rule", .obj [("when", .obj [("pattern", .obj [("a", .str "?x")])])])])] } := by
-  intro e he
-  simp only [List.mem_singleton] at he
-  subst he
+/-- the hypotheses of `no_operation_poisons` / `no_panic_off_sites` hold of a fresh location of either kind -/
+example (kind : Kind) : (fresh kind).locks = C13Gen.lockUses ∧ Serving (fresh kind) ∧ FaultFree (fresh kind) :=
+  ⟨rfl, rfl, fun _ _ => rfl⟩
+
+/-- `no_operation_poisons` is about something: with a fault oracle that makes every `Add` body panic, `AddFact` does end
+in a panic — and the location serves the next request all the same. Under the lock discipline of the unrepaired source
+(`IndexedState.Add` released its lock without `defer`) the same panic blocks the location. -/
+example :
+    let faulty : KLoc := { fresh .indexed with fault := fun m s => if m == .add then some s else none }
+    let old : List C13Gen.LockUse := C13Gen.lockUses.map (fun u => if u.func == "IndexedState.Add" then { u with deferred := false } else u)
+    (kAddFact {} "m" [("a", .num 1)] 100 faulty).2.cls = "panic" ∧
+    (kAddFact {} "m" [("a", .num 1)] 100 faulty).1.lock = .free ∧
+    (kGetFact {} "m" 100 (kAddFact {} "m" [("a", .num 1)] 100 faulty).1).2.cls = "err" ∧
+    (kAddFact {} "m" [("a", .num 1)] 100 { faulty with locks := old }).1.lock = .wdead ∧
+    (kGetFact {} "m" 100 (kAddFact {} "m" [("a", .num 1)] 100 { faulty with locks := old }).1).2.isHang = true := by
+  decide +kernel
+
+/-- the documents of the former panic sites are `badWhen`, an ordinary rule body is not -/
+example : badWhen [("when", .num 5)] = true ∧ badWhen [("when", .obj [("pattern", .null)])] = true ∧
+    badWhen [("when", .null), ("schedule", .str "x")] = true ∧
+    badWhen [("when", .obj [("pattern", .obj [("a", .str "?x")])])] = false ∧ badWhen [("action", .null)] = false := by
   decide +kernel
 
 /-- `validated_paths_safe` applies to an ordinary rule -/
